@@ -603,7 +603,15 @@ func c17r4(c *core.Ctx) {
 		nFlags := 0
 		core.Instrs(rd, func(i ssa.Instruction) {
 			if ph, ok := i.(*ssa.Phi); ok && reachesAfter(ph, ph) {
-				if b, ok := ph.Type().Underlying().(*types.Basic); ok && b.Kind() == types.Bool {
+				// loop-carried: the phi sits in a loop header (one of its incoming edges is a back edge) — the value phi of a
+				// short-circuit condition inside the loop body ( a || b ) is not a variable
+				carried := false
+				for _, pb := range ph.Block().Preds {
+					if ph.Block().Dominates(pb) {
+						carried = true
+					}
+				}
+				if b, ok := ph.Type().Underlying().(*types.Basic); ok && b.Kind() == types.Bool && carried {
 					flags = append(flags, ph)
 				}
 			}
@@ -1147,7 +1155,41 @@ func differsFromPrevTag(rd *ssa.Function) core.CondFact {
 		u, ok := core.StripConv(v).(*ssa.UnOp)
 		return ok && tagCell != nil && u.Op == token.MUL && u.X == tagCell
 	}
+	// the previous tag: a loop-carried variable one of whose incoming values is a load of the tag variable — or, where the
+	// dominance query has replaced that variable by the value it has on the edge taken, one of those incoming values itself
+	prevVals := map[ssa.Value]bool{}
+	prevInit := map[int64]bool{}
+	core.Instrs(rd, func(i ssa.Instruction) {
+		if ph, ok := i.(*ssa.Phi); ok {
+			carried := false
+			for _, e := range ph.Edges {
+				if isTagLoad(e) {
+					carried = true
+				}
+			}
+			if carried {
+				prevVals[ph] = true
+				for _, e := range ph.Edges {
+					if k, isK := e.(*ssa.Const); isK {
+						if v, ok := core.ConstInt(k); ok {
+							prevInit[v] = true // the value before the first item
+						}
+						continue
+					}
+					prevVals[e] = true
+				}
+			}
+		}
+	})
 	isPrevTag := func(v ssa.Value) bool {
+		if prevVals[core.StripConv(v)] {
+			return true
+		}
+		if k, isK := core.StripConv(v).(*ssa.Const); isK {
+			if n, ok := core.ConstInt(k); ok && prevInit[n] {
+				return true
+			}
+		}
 		ph, ok := core.StripConv(v).(*ssa.Phi)
 		if !ok {
 			return false
